@@ -83,14 +83,18 @@ def unhx(s):
     return b'' if s == '-' else bytes.fromhex(s)
 
 
-# ---------------------------------------------------------------- network table (read from the tree under test, independently)
+# ---------------------------------------------------------------- network table (frozen specification copy)
 _NETS = None
 
 
 def nets():
     global _NETS
     if _NETS is None:
-        d = json.load(open(os.path.join(REPO, 'bitcoinlib', 'data', 'networks.json')))
+        # frozen specification table (harness/spec_networks.py), never the tree under test: an edited row of
+        # networks.json is then a concrete failing address/script, not a table compared with itself.  FROZEN = the
+        # reference clients' parameters with the documented deviations of the library (regtest: C04 known finding).
+        import spec_networks as SN
+        d = SN.FROZEN
         _NETS = {k: (bytes.fromhex(v['prefix_address']), bytes.fromhex(v['prefix_address_p2sh']), v['prefix_bech32'],
                      v['priority']) for k, v in d.items()}
     return _NETS
